@@ -877,3 +877,20 @@ func (m *Module) alwaysCalls(fn, target *ssa.Function, depth int) bool {
 	}
 	return true
 }
+
+// stringRanges lists the `range` loops over a string in fn: they iterate UTF-8
+// runes, not bytes (a byte >= 0x80 is decoded, invalid ones become U+FFFD, the
+// index skips continuation bytes).
+func stringRanges(fn *ssa.Function) []ssa.Instruction {
+	var out []ssa.Instruction
+	for _, b := range fn.Blocks {
+		for _, in := range b.Instrs {
+			if r, ok := in.(*ssa.Range); ok {
+				if bt, ok := r.X.Type().Underlying().(*types.Basic); ok && bt.Info()&types.IsString != 0 {
+					out = append(out, in)
+				}
+			}
+		}
+	}
+	return out
+}
